@@ -54,6 +54,19 @@ CLAIMED["C09"] = {
     "technique": _T + ": call-graph agreement on one arg-min routine, guarded-state consistency and reaching-definition freshness of the result fields",
 }
 
+CLAIMED["C13"] = {
+    "text": "Decides structural necessary conditions of 'fitting terminates with a model whose published coefficients are feasible and "
+            "undo the shrinking permutation', for every dataset and setting with shrinking enabled (which the suite never does): "
+            "every per-variable container indexed by position is permuted by swap; no counted loop takes its bound once from a "
+            "field its body decrements; in solve, position-indexed state is never indexed with sample-space indices and the "
+            "published alpha is sample-indexed; sibling sites of the solver agree (reconstruct_gradient always followed by "
+            "unshrinking, i/j blocks of update equal up to renaming, is-free guard and summand on one variable, shrink tests' sign "
+            "pattern); the three support-vector predicates are one expression. Not decided: KKT conditions, rho, objective values.",
+    "design_ref": "DESIGN.md section 4, C13",
+    "note": "Trusted: rustc resolution/typeck, the fact dump; the index-space tags are inferred from the code's own swap(); sibling rules were confirmed against the reference SMO algorithm.",
+    "technique": _T + ": index-space tag inference, stale-loop-bound detection, sibling agreement (deviant-behaviour) rules on SolverState",
+}
+
 CLAIMED["C14"] = {
     "text": "Decides two structural necessary conditions for all trees and data: the comparison that routes a training row to the "
             "left child when the child masks are built is the same canonical relation (feature OP split) as the one "
